@@ -423,7 +423,7 @@ void hp_hwloc_internal_distances_dup(void)
 {
   int r; unsigned k, j; struct hwloc_internal_distances_s *cur, *prev = (struct hwloc_internal_distances_s *)0; int keep[ND];
   VERIF_GHOSTS();
-  mk_objects(); mk_list();
+  mk_list();
   topo2.tma = (struct hwloc_tma *)0; topo2.first_dist = topo2.last_dist = (struct hwloc_internal_distances_s *)0; topo2.next_dist_id = nondet_unsigned();
   r = hwloc_internal_distances_dup(&topo2, &topo);
   __CPROVER_assert(r == 0 || r == -1, "returns 0 or -1");
@@ -442,7 +442,7 @@ void hp_hwloc_internal_distances_dup(void)
       __CPROVER_assert(cur->nbobjs == S[k].n && cur->kind == S[k].kind && cur->id == S[k].id && cur->unique_type == S[k].ut, "duplicate: same nbobjs, kind, id, type");
       __CPROVER_assert(cur->iflags == (S[k].iflags & ~HWLOC_INTERNAL_DIST_FLAG_OBJS_VALID), "duplicate: object cache marked invalid, other flags kept");
       __CPROVER_assert(cur->indexes != L[k]->indexes && cur->values != L[k]->values && cur->objs != L[k]->objs, "duplicate: arrays are not shared with the source");
-      __CPROVER_assert(S[k].name ? (cur->name != 0 && cur->name != S[k].name && cur->name[0] == S[k].name[0] && cur->name[1] == S[k].name[1] && cur->name[2] == 0) : cur->name == 0, "duplicate: private copy of the name");
+      __CPROVER_assert(S[k].name ? (cur->name != 0 && cur->name != S[k].name && cur->name[0] == S[k].name[0] && (!S[k].name[0] || (cur->name[1] == S[k].name[1] && (!S[k].name[1] || cur->name[2] == 0)))) : cur->name == 0, "duplicate: private copy of the name");
       __CPROVER_assert(S[k].has_types ? (cur->different_types != 0 && cur->different_types != L[k]->different_types) : cur->different_types == 0, "duplicate: private copy of the per-object types");
       for (j = 0; j < NG; j++) {
         __CPROVER_assert(cur->indexes[j] == S[k].idx[j] && cur->objs[j] == 0, "duplicate: same indexes, cached objects cleared");
